@@ -1,0 +1,15 @@
+//go:build verif
+
+package types
+
+import (
+	"sync/atomic"
+	"time"
+)
+
+// VerifSetTimeShift sets the offset Now() adds to the wall clock without the
+// +-300 s cap of SetTimeDelta (verification builds only): pool-age expiry is
+// 600 s and time-based transaction expiry is compared with Now().
+func VerifSetTimeShift(d time.Duration) {
+	atomic.StoreInt64(&deltaTime, int64(d))
+}
